@@ -44,3 +44,55 @@ V('C07', 'registration-cond-weakened', S, 'edb.edgeql.compiler.setgen.new_set',
   'C07.R5', 'registers-rewrite')
 V('C07', 'neg-rename-local', R, RM,
   'force_cte', 'needs_cte', None, count=3)
+
+PO = 'edb/edgeql/compiler/policies.py'
+PF = 'edb.edgeql.compiler.policies.get_rewrite_filter'
+V('C07', 'no-filter-when-no-policy-of-kind', PO, PF,
+  '''    pols = get_access_policies(stype, ctx=ctx)
+    if not pols:
+        return None
+''', '''    pols = [
+        pol for pol in get_access_policies(stype, ctx=ctx)
+        if mode in pol.get_access_kinds(schema)
+    ]
+    if not pols:
+        return None
+''', 'C07.R6', 'no-filter-only-without-policies')
+V('C07', 'default-allow', PO, PF,
+  '        filter_expr = qlast.Constant.boolean(False)\n', '        filter_expr = qlast.Constant.boolean(True)\n', 'C07.R6', 'default-deny')
+V('C07', 'deny-ored', PO, PF,
+  'filter_expr = astutils.extend_binop(filter_expr, deny_expr)', "filter_expr = astutils.extend_binop(filter_expr, deny_expr, op='OR')", 'C07.R6', 'deny-wins')
+V('C07', 'deny-not-negated', PO, PF,
+  '''        deny_expr = qlast.UnaryOp(
+            op='NOT',
+            operand=astutils.extend_binop(None, *deny, op='OR')
+        )''', '''        deny_expr = astutils.extend_binop(None, *deny, op='OR')''', 'C07.R6', 'deny-wins')
+V('C07', 'kinds-ignored', PO, PF,
+  '''        if mode not in pol.get_access_kinds(schema):
+            continue
+
+''', '', 'C07.R6', 'get_rewrite_filter:kinds')
+V('C07', 'allow-deny-swapped', PO, PF,
+  'is_allow = pol.get_action(schema) == qltypes.AccessPolicyAction.Allow', 'is_allow = pol.get_action(schema) != qltypes.AccessPolicyAction.Allow', 'C07.R6', 'action=')
+V('C07', 'registry-rebound-after-typeof', 'edb/edgeql/compiler/typegen.py', 'edb.edgeql.compiler.typegen._ql_typeexpr_get_types',
+  '''            ctx.env.type_rewrites.clear()
+            ctx.env.type_rewrites.update(orig_rewrites)
+''', '''            ctx.env.type_rewrites = orig_rewrites
+''', 'C07.R7', 'rebinds-registry')
+V('C07', 'reader-uses-view-id', 'edb/pgsql/compiler/pathctx.py', 'edb.pgsql.compiler.pathctx.has_type_rewrite',
+  '(typeref.real_material_type.id, b) in env.type_rewrites', '(typeref.id, b) in env.type_rewrites', 'C07.R7', 'has_type_rewrite:reader-key')
+V('C07', 'view-cache-shared', 'edb/edgeql/compiler/stmtctx.py', 'edb.edgeql.compiler.stmtctx._declare_view_from_schema',
+  '        ctx.env.schema_view_cache[key] = vc, view_set\n', '        ctx.env.schema_view_cache[key] = vc, view_set\n        ctx.env.schema_view_cache.setdefault((viewcls, False), (vc, view_set))\n', 'C07.R7', 'view-cache-key')
+V('C07', 'view-cache-key-without-security', 'edb/edgeql/compiler/stmtctx.py', 'edb.edgeql.compiler.stmtctx._declare_view_from_schema',
+  '    key = viewcls, ctx.get_security_context()\n', '    key = viewcls, None\n', 'C07.R7', 'view-cache-key')
+# negative control: filter by kind in a second list, keep the early exit on all
+V('C07', 'neg-kind-filter-in-second-list', PO, PF,
+  '''    allow, deny = [], []
+    for pol in pols:
+        if mode not in pol.get_access_kinds(schema):
+            continue
+
+''', '''    allow, deny = [], []
+    applicable = [p for p in pols if mode in p.get_access_kinds(schema)]
+    for pol in applicable:
+''', None)
